@@ -124,6 +124,10 @@ theorem nfInv_setBefore {e : Expr} (h : e.nfInv) {b : List Trivia} (hb : Alt b) 
   | lam n bcc g k body b' a => obtain ⟨h1, h2, h3, h4, h5, _, h7⟩ := h; exact ⟨h1, h2, h3, h4, h5, hb, h7⟩
   | un op e g bt b' a => obtain ⟨h1, h2, h3, h4, _, h6⟩ := h; exact ⟨h1, h2, h3, h4, hb, h6⟩
   | bin op l r x y b' a => obtain ⟨h1, h2, h3, h4, h5, _, h7⟩ := h; exact ⟨h1, h2, h3, h4, h5, hb, h7⟩
+  | ite c t e cg aic aig btc btg atc tg bec beg aec eg b' a =>
+    obtain ⟨h1, h2, h3, h4, h5, h6, h7, h8, h9, h10, h11, h12, _, h14⟩ := h
+    exact ⟨h1, h2, h3, h4, h5, h6, h7, h8, h9, h10, h11, h12, hb, h14⟩
+  | has e ats lg rg bq aq b' a => obtain ⟨h1, h2, h3, h4, h5, _, h7⟩ := h; exact ⟨h1, h2, h3, h4, h5, hb, h7⟩
 
 theorem nfInv_addAfter {e : Expr} (h : e.nfInv) (hc : closedT (e.effAfter false)) {ts : List Trivia} (hts : Alt ts) :
     (e.addAfter ts).nfInv := by
@@ -146,6 +150,10 @@ theorem nfInv_addAfter {e : Expr} (h : e.nfInv) (hc : closedT (e.effAfter false)
   | lam n bcc g k body b a => obtain ⟨h1, h2, h3, h4, h5, h6, h7⟩ := h; exact ⟨h1, h2, h3, h4, h5, h6, alt_append_closed h7 hc hts⟩
   | un op e g bt b a => obtain ⟨h1, h2, h3, h4, h5, h6⟩ := h; exact ⟨h1, h2, h3, h4, h5, alt_append_closed h6 hc hts⟩
   | bin op l r x y b a => obtain ⟨h1, h2, h3, h4, h5, h6, h7⟩ := h; exact ⟨h1, h2, h3, h4, h5, h6, alt_append_closed h7 hc hts⟩
+  | ite c t e cg aic aig btc btg atc tg bec beg aec eg b a =>
+    obtain ⟨h1, h2, h3, h4, h5, h6, h7, h8, h9, h10, h11, h12, h13, h14⟩ := h
+    exact ⟨h1, h2, h3, h4, h5, h6, h7, h8, h9, h10, h11, h12, h13, alt_append_closed h14 hc hts⟩
+  | has e ats lg rg bq aq b a => obtain ⟨h1, h2, h3, h4, h5, h6, h7⟩ := h; exact ⟨h1, h2, h3, h4, h5, h6, alt_append_closed h7 hc hts⟩
 
 theorem closedT_append {a b : List Trivia} (ha : closedT a) (hb : closedT b) : closedT (a ++ b) := by
   rcases hb with h | ⟨c, hc⟩
@@ -723,6 +731,47 @@ theorem cst_nf : (c : Cst) → c.wf = true → c.basic = true → ∀ (e : Expr)
         have hopsemi : op ≠ [';'] := by
           intro h; subst h; revert hop; decide
         exact ⟨⟨hln, hlb, hrn, hrb, hopsemi, trivial, trivial⟩, rfl, rfl, rfl⟩
+  | .ite c1 g1 c c2 g2 c3 g3 t c4 g4 c5 g5 e, hwf, hbs, ex, hp => by
+    obtain ⟨⟨h1, h2, h3, h4, h5⟩, ⟨hcw, htw, hew⟩, _⟩ := ite_wf hwf
+    subst h1; subst h2; subst h3; subst h4; subst h5
+    simp only [Cst.basic, Bool.and_eq_true] at hbs
+    simp only [Cst.parse] at hp
+    cases hpt : t.parse with
+    | error err => rw [hpt] at hp; cases hp
+    | ok te =>
+      rw [hpt] at hp
+      cases hpe : e.parse with
+      | error err => rw [hpe] at hp; cases hp
+      | ok ee =>
+        rw [hpe] at hp
+        cases hpc : c.parse with
+        | error err => rw [hpc] at hp; cases hp
+        | ok ce =>
+          rw [hpc] at hp; injection hp with hp; subst hp
+          obtain ⟨hcn, hcb, _, _⟩ := cst_nf c hcw hbs.1.1 ce hpc
+          obtain ⟨htn, htb, _, _⟩ := cst_nf t htw hbs.1.2 te hpt
+          obtain ⟨hen, heb, _, _⟩ := cst_nf e hew hbs.2 ee hpe
+          rw [iteFromCst_nil]
+          exact ⟨⟨hcn, hcb, htn, htb, hen, heb, rfl, rfl, rfl, rfl, rfl, rfl, trivial, trivial⟩, rfl, rfl, rfl⟩
+  | .has e c1 g1 c2 g2 attrs, hwf, hbs, ex, hp => by
+    have hall : attrs.all attrSegOk = true := by
+      simp only [Cst.wf, Bool.and_eq_true] at hwf; exact hwf.2
+    obtain ⟨⟨h1, h2⟩, hew, _, _, _⟩ := has_wf hwf
+    subst h1; subst h2
+    simp only [Cst.basic] at hbs
+    simp only [Cst.parse] at hp
+    cases hpe : e.parse with
+    | error err => rw [hpe] at hp; cases hp
+    | ok ee =>
+      rw [hpe] at hp; injection hp with hp; subst hp
+      obtain ⟨hen, heb, _, _⟩ := cst_nf e hew hbs ee hpe
+      have hsemi : ∀ x ∈ attrs, x ≠ [';'] := by
+        intro x hx
+        have := (List.all_eq_true.mp hall) x hx
+        simp only [attrSegOk, Bool.and_eq_true, bne_iff_ne, ne_eq] at this
+        exact this.2
+      exact ⟨⟨hen, heb, by simp [collectTrivia, collectGo], by simp [collectTrivia, collectGo], hsemi, trivial, trivial⟩,
+        rfl, rfl, rfl⟩
   | .paren its cg, hwf, hbs, e, hp => by
     simp only [Cst.wf, Bool.and_eq_true, beq_iff_eq] at hwf
     simp only [Cst.parse] at hp
@@ -1075,6 +1124,10 @@ theorem inlineClean_of_B : (e : Expr) → e.inlineCleanB = true → e.inlineClea
   | .bin _ l r ogl rgl _ _, h => by
     simp only [Expr.inlineCleanB, Bool.and_eq_true, decide_eq_true_eq] at h
     exact ⟨h.1.1.1, h.1.1.2, inlineClean_of_B l h.1.2, inlineClean_of_B r h.2⟩
+  | .ite c t e _ _ _ _ _ _ _ _ _ _ _ _ _, h => by
+    simp only [Expr.inlineCleanB, Bool.and_eq_true] at h
+    exact ⟨inlineClean_of_B c h.1.1, inlineClean_of_B t h.1.2, inlineClean_of_B e h.2⟩
+  | .has e _ _ _ _ _ _ _, h => inlineClean_of_B e h
 theorem allInlineClean_of_B : (es : List Expr) → allInlineCleanB es = true → allInlineClean es
   | [], _ => trivial
   | e :: rest, h => by
